@@ -32,3 +32,25 @@ Definition dtpf (u k : Z) (s : list Z) : list Z := enc_oi (parse_with u (fmt_of 
 
 (* Time::parse of a valid HH:MM:SS.f string: nanoseconds since midnight *)
 Definition tm (h m s ns : Z) : list Z := c_int (((h * 60 + m) * 60 + s) * giga + ns).
+
+(* ---- audit (YC): Time::parse with an explicit format, Debug / Display of Time, Debug of TimeDelta and DateTime ------ *)
+Definition tfmt_of (k : Z) : list item :=
+  if k =? 0 then fmt_hms else if k =? 1 then fmt_hms_f else if k =? 2 then fmt_hms_compact else fmt_hm.
+(* Time::parse(s, Some(fmt_k)) *)
+Definition tmp (k : Z) (s : list Z) : list Z := enc_oi (time_parse_with (tfmt_of k) s).
+(* format!("{:?}", Time(t)) ++ sep ++ format!("{}", Time(t)) *)
+Definition tmdbg (t : Z) : list Z := cells c_int (time_debug t) ++ c_sep ++ cells c_int (time_display t).
+(* format!("{:?}", TimeDelta { months, inner }) = the String cast *)
+Definition tddbg (m ns : Z) : list Z := cells c_int (td_debug m ns).
+(* format!("{:?}", DateTime::<U>::new(x)) *)
+Definition dtdbg (u x : Z) : list Z :=
+  match dt_debug u x with Ok text => cells c_int text | Panic k => c_panic k end.
+
+(* Time::parse(s, Some("%H:%M:%S")) then Timelike::hour() of the result (a leap second gives a Time of a whole day or more
+   past midnight..., on which as_cr() is None and the getter unwraps it) *)
+From Tevec Require Model.Time.
+Definition tmleap (s : list Z) : list Z :=
+  match time_parse_with fmt_hms s with
+  | Some v => c_int v ++ match Time.time_hour v with Ok h => c_int h | Panic k => c_panic k end
+  | None => c_err
+  end.
